@@ -737,7 +737,7 @@ func (c *FnCtx) enterLoop(fr *Frame, h *ssa.BasicBlock, ord int, st *State) *Sta
 			}
 			seenO[o.id] = true
 			switch {
-			case o.id <= maxID:
+			case o.id <= maxID || c.eng.ts.builtFrom(o, maxID):
 				inv = append(inv, o)
 			case wl.alloc[o.id]:
 				layered = true
